@@ -33,7 +33,7 @@ class CannotTranslate(Exception):
 
 INT_CONSTANTS = {
     "aiortc.rtcsctptransport": [
-        "COOKIE_LENGTH", "COOKIE_LIFETIME", "MAX_STREAMS", "USERDATA_MAX_LENGTH",
+        "COOKIE_LENGTH", "COOKIE_LIFETIME", "MAX_STREAMS", "USERDATA_MAX_LENGTH", "SACK_MAX_ENTRIES",
         "SCTP_COMMON_HEADER_LENGTH", "SCTP_CHUNK_HEADER_LENGTH", "SCTP_PACKET_MINIMUM_LENGTH",
         "SCTP_CAUSE_INVALID_STREAM", "SCTP_CAUSE_STALE_COOKIE",
         "SCTP_DATA_LAST_FRAG", "SCTP_DATA_FIRST_FRAG", "SCTP_DATA_UNORDERED",
